@@ -136,7 +136,8 @@ func (l *Lexer) scanInLine() Token {
 	case ch == '"':
 		return l.scanQuotedCommodity()
 	case ch == '-' || ch == '+':
-		if l.nextIsCurrencySymbol() || l.nextIsLetterCommodity() || l.nextIsDigit() {
+		if l.nextIsCurrencySymbol() || l.nextIsLetterCommodity() || l.nextIsDigit() ||
+			(l.pos+1 < len(l.input) && l.input[l.pos+1] == '"') {
 			return l.scanSign()
 		}
 		return l.scanText()
